@@ -4,6 +4,7 @@
 mod abs;
 mod c07;
 mod c10;
+mod c12;
 mod c13;
 mod c16;
 mod doc;
@@ -79,6 +80,10 @@ fn main() {
         println!("{}", inv::pretty(ts.to_stream()).unwrap_or_else(|e| e));
         return;
     }
+    if args.len() == 5 && args[1] == "c12child" {
+        c12::child(&args[2], args[3].parse().unwrap(), args[4].parse().unwrap());
+        return;
+    }
     if args.len() < 4 {
         eprintln!("usage: vdrive <family> <cases.ndjson> <events.ndjson> [extra...]");
         std::process::exit(2);
@@ -87,6 +92,7 @@ fn main() {
     match fam {
         "c07" => c07::run(&args[2], &args[3]),
         "c10" => c10::run(&args[2], &args[3]),
+        "c12" => c12::run(&args[2], &args[3], args.get(4).and_then(|n| n.parse().ok()).unwrap_or(3)),
         "c13" => c13::run(&args[2], &args[3]),
         "c16" => c16::run(&args[2], &args[3]),
         "gen" => gen::run(&args[4], &args[2], &args[3], &args[5], args[6].parse().unwrap()),
